@@ -173,11 +173,11 @@ var cwdSpec = []struct {
 	{"b", false, "SENTINEL-CWDUP-B-QZXJ"},
 	{"a", true, ""},
 	{"a/b", false, "SENTINEL-CWDUP-AB-QZXJ"},
-	{"secret.txt", false, secret("S3", 600)},
+	{"secret.txt", false, "SENTINEL-CWDUP-S-QZXJ"},
 	{"wd/b", false, "SENTINEL-CWD-B-QZXJ"},
 	{"wd/a", true, ""},
 	{"wd/a/b", false, "SENTINEL-CWD-AB-QZXJ"},
-	{"wd/secret.txt", false, secret("S4", 650)},
+	{"wd/secret.txt", false, "SENTINEL-CWD-S-QZXJ"},
 }
 
 func mustWrite(p string, dir bool, data string) {
@@ -267,12 +267,19 @@ func (w window) snapshot() []entry {
 	return out
 }
 
+// long contents of the initial window are named once in the shard header
+var namedContent = map[string]string{}
+
 func coqFS(es []entry) string {
 	var xs []string
 	for _, e := range es {
 		n := "NDir"
 		if !e.Dir {
-			n = "NFile " + hx.CoqBytes(e.Data)
+			if nm, ok := namedContent[string(e.Data)]; ok {
+				n = "NFile " + nm
+			} else {
+				n = "NFile " + hx.CoqBytes(e.Data)
+			}
 		}
 		xs = append(xs, fmt.Sprintf("(%s, %s)", hx.CoqStr(e.Key), n))
 	}
@@ -398,8 +405,17 @@ func main() {
 	}
 	w.reset()
 	fs0 := w.snapshot()
-	header := "From HT Require Import Common.Bytes C11.Model C11.Check.\n" +
-		"Definition ROOT : bytes := " + hx.CoqStr(w.root) + ".\n" +
+	header := "From HT Require Import Common.Bytes C11.Model C11.Check.\n"
+	for _, e := range fs0 {
+		if !e.Dir && len(e.Data) > 100 {
+			if _, ok := namedContent[string(e.Data)]; !ok {
+				nm := fmt.Sprintf("CONTENT%d", len(namedContent))
+				namedContent[string(e.Data)] = nm
+				header += "Definition " + nm + " : bytes := " + hx.CoqBytes(e.Data) + ".\n"
+			}
+		}
+	}
+	header += "Definition ROOT : bytes := " + hx.CoqStr(w.root) + ".\n" +
 		"Definition FS0 : hostfs := " + coqFS(fs0) + ".\n"
 
 	var replay *Input
